@@ -315,35 +315,48 @@ def run_epochs(ctx, jobs, avoid, budget=600):
         procs.append((sub, d, cmd, subprocess.Popen(cmd, shell=True, cwd=d, env=env, stdout=subprocess.PIPE, stderr=subprocess.STDOUT)))
     res = []
     t_end = time.time() + budget
-    for sub, d, cmd, p in procs:
-        try:
-            out, _ = p.communicate(timeout=max(5, t_end - time.time()))
-        except subprocess.TimeoutExpired:
-            # hard cap of the whole batch of jobs: what was written so far is still evaluated
-            p.kill()
-            out, _ = p.communicate()
-        out = out.decode("utf-8", "replace")
-        rc = p.returncode
-        jp = os.path.join(d, "journal.txt")
-        if rc in (1, 2, 3) and (not os.path.exists(jp) or os.path.getsize(jp) == 0):
-            # nothing was sent yet: server start problem (a port taken by an unrelated outgoing
-            # connection, slow election): one retry (the harness probes for free ports itself)
-            for attempt in (1, 2, 3):
-                time.sleep(1)
-                m = re.search(r"-port (\d+)", cmd)
-                if m:   # another port triple (the range overlaps the kernel's ephemeral ports)
-                    cmd = cmd.replace("-port " + m.group(1), "-port %d" % (34000 + (int(m.group(1)) - 34000 + 211 * attempt) % 990))
-                rc, out, _ = sh(cmd, cwd=d, timeout=max(30, t_end - time.time()))
-                if rc not in (1, 2, 3) or (os.path.exists(jp) and os.path.getsize(jp) > 0):
-                    break
-        res.append((sub, d, rc, out))
     mprocs = []
-    for sub, d, rc, out in res:
-        # the sized values of the length sweep are lists of ~10^6 elements in the extracted model: no stack limit
+
+    def start_model(d):
+        # the sized values of the length sweep are long lists in the extracted model: no stack limit
         mprocs.append(subprocess.Popen("ulimit -s unlimited 2>/dev/null; %s < cases.tsv > model.out" % vlib.modelrun_path(GROUP),
                                        shell=True, cwd=d, executable="/bin/bash"))
+
+    pending = list(procs)
+    while pending:
+        progressed = False
+        for item in list(pending):
+            sub, d, cmd, p = item
+            if p.poll() is None and time.time() < t_end:
+                continue
+            progressed = True
+            pending.remove(item)
+            if p.poll() is None:
+                # hard cap of the whole batch of jobs: what was written so far is still evaluated
+                p.kill()
+            out, _ = p.communicate()
+            out = out.decode("utf-8", "replace")
+            rc = p.returncode
+            jp = os.path.join(d, "journal.txt")
+            if rc in (1, 2, 3) and (not os.path.exists(jp) or os.path.getsize(jp) == 0):
+                # nothing was sent yet: server start problem (a port taken by an unrelated outgoing
+                # connection, slow election): retries on other ports
+                for attempt in (1, 2, 3):
+                    time.sleep(1)
+                    m = re.search(r"-port (\d+)", cmd)
+                    if m:   # another port triple (the range overlaps the kernel's ephemeral ports)
+                        cmd = cmd.replace("-port " + m.group(1), "-port %d" % (34000 + (int(m.group(1)) - 34000 + 211 * attempt) % 990))
+                    rc, out, _ = sh(cmd, cwd=d, timeout=max(30, t_end - time.time()))
+                    if rc not in (1, 2, 3) or (os.path.exists(jp) and os.path.getsize(jp) > 0):
+                        break
+            res.append((sub, d, rc, out))
+            start_model(d)     # the model of a finished job runs while the other jobs are still going
+        if not progressed:
+            time.sleep(0.3)
     for p in mprocs:
         p.wait()
+    order = {sub: i for i, (sub, _) in enumerate(jobs)}
+    res.sort(key=lambda r: order.get(r[0], 0))
     return res
 
 
@@ -386,7 +399,7 @@ def run(ctx):
         for i, p in enumerate(sorted(glob.glob(os.path.join(vlib.VERIF, "corpus", "C11", "*.tsv")))):
             pol = " -policy wait_compact" if os.path.basename(p).startswith("wc-") else ""
             jobs.append(("corpus-" + os.path.basename(p)[:-4], "-replay %s -port %d%s" % (p, pbase + 3 * len(jobs), pol)))
-        nproc, n = (4, 4000) if quick else (12, 20000)
+        nproc, n = (4, 3000) if quick else (12, 20000)
         for i in range(nproc):
             eng = "mem" if (quick or i % 3 != 2) else "pebble"
             pol = "wait_compact" if i % 2 == 1 else "local_deletion"
@@ -394,11 +407,13 @@ def run(ctx):
     if not ctx.replay:
         # length sweep: values / members / keys of the size constants of the write path +-32 bytes, for every
         # write command; quick: constants up to 1 MiB in 4 slices, thorough: all of them, all positions
-        nsl, mx = (4, 1 << 20) if quick else (6, 9 << 20)
+        nsl, mx = (6, 1 << 20) if quick else (8, 9 << 20)
         for k in range(nsl):
             pol = "wait_compact" if k % 2 == 0 else "local_deletion"
-            jobs.append(("sweep-%d" % k, "-seed %d -sweep %d -sweeppart %d/%d -policy %s -port %d%s" % (
-                ctx.seed, mx, k, nsl, pol, pbase + 3 * len(jobs), "" if quick else " -sweepfull")))
+            # the size sweep is sliced over all jobs, the state sequences over the jobs of one policy: both
+            # expiration policies (different stored value layouts) see every sequence
+            jobs.append(("sweep-%d" % k, "-seed %d -sweep %d -sweeppart %d/%d -statepart %d/%d -policy %s -port %d%s" % (
+                ctx.seed, mx, k, nsl, k // 2, nsl // 2, pol, pbase + 3 * len(jobs), "" if quick else " -sweepfull")))
     res = run_epochs(ctx, jobs, avoid, budget=(420 if quick else 2400))
 
     all_mism, all_fail, total = [], [], 0
